@@ -8,9 +8,15 @@ Driver for the state-feedback family `sf` (C11).  One line per case:
   sf lqe   <lqe|dlqe> <dt|M> n g o A G C <QN> <RN> <0|1>
                                               -> ok <care|dare> <Aᵀ> <Cᵀ> <G QN Gᵀ> <RN> 0
   sf fbk   <dt> n m A B Cp <K> <0|1 Ci>      -> ok q <ctrl A B C D> <closed loop A B C D>
+  sf fbks  <dt> n mt A B Cp <mt labels s:…> <0 | 1 selector> <K> <0|1 Ci>
+                                              -> ok q m r <sel: m indices> <rest: r indices>
+                                                 <ctrl A B C D> <closed loop A B C D>
+    (selector as in Driver/Index.lean; closed-loop inputs: x_d, u_d, then the free plant inputs in
+    increasing index order)
 where <mat> = `r c v…` (row major).  Trusted glue (parsing, printing, tabulation).
 -/
 import CtrlVerif.Driver.Mat
+import CtrlVerif.Driver.Index
 import CtrlVerif.Model.StateFbkDyn
 import Mathlib.Algebra.QuadraticAlgebra.Defs
 
@@ -163,6 +169,36 @@ def hFbk : P String := do
       ++ showSSIdx (idxSum n q) (idxSum n m) (idxSum n m) cl)
   | .error e => pure (showErr e)
 
+/-- closed-loop inputs `(x_d ⊕ u_d) ⊕ d`. -/
+def idx4 (a b d : Nat) : List ((Fin a ⊕ Fin b) ⊕ Fin d) :=
+  (idxSum a b).map Sum.inl ++ (List.finRange d).map Sum.inr
+
+def hFbkSel : P String := do
+  let dt ← pDt
+  let n ← pNat
+  let mt ← pNat
+  let A ← pMatSized n n
+  let B ← pMatSized n mt
+  let Cp ← pMatSized n n
+  let mut labs : Array String := #[]
+  for _ in [0:mt] do
+    labs := labs.push (← Index.pStr)
+  let hasSel ← pNat
+  let ci ← if hasSel = 0 then pure none else do
+    let s ← Index.pSel
+    pure (some s)
+  let Kg ← pDM
+  let Ci ← pOptDM
+  match fbkSelDyn dt n mt A B Cp (Index.labelsOf labs) ci Kg Ci with
+  | .ok R =>
+    let m := R.sel.length
+    let r := R.rest.length
+    let showFins := fun (l : List (Fin mt)) => String.join (l.map fun i => s!" {i.val}")
+    pure (s!"ok {R.q} {m} {r}" ++ showFins R.sel ++ showFins R.rest ++ " "
+      ++ showSSIdx (List.finRange R.q) (idx3 n m n) (List.finRange m) R.ctrl ++ " "
+      ++ showSSIdx (idxSum n R.q) (idx4 n m r) (idxSum n m) R.cl)
+  | .error e => pure (showErr e)
+
 def handle (toks : List String) : String :=
   match toks with
   | "ctrb" :: rest => runLine hCtrb rest
@@ -171,6 +207,7 @@ def handle (toks : List String) : String :=
   | "lqr" :: rest => runLine hLqr rest
   | "lqe" :: rest => runLine hLqe rest
   | "fbk" :: rest => runLine hFbk rest
+  | "fbks" :: rest => runLine hFbkSel rest
   | op :: _ => s!"bad-op sf:{op}"
   | [] => "bad-op sf:empty"
 
